@@ -200,7 +200,7 @@ SmDraw ==
   /\ viol' = viol /\ UNCHANGED <<scen, fr, kind, seen>>
 SmCall ==
   /\ Is("call") /\ Adv
-  /\ sm' = IF sm.active /\ (sm.inAct \/ sm.inInv) /\ Ev.m \in {"errorf", "error", "fail"} THEN [sm EXCEPT !.nf = TRUE] ELSE sm
+  /\ sm' = IF sm.active /\ (sm.inAct \/ sm.inInv) /\ Ev.m \in {"errorf", "error", "fail", "fatalf", "fatal", "failnow", "fatalfc"} THEN [sm EXCEPT !.nf = TRUE] ELSE sm
   /\ viol' = viol /\ UNCHANGED <<scen, fr, kind, seen>>
 
 \* Repeat's own bookkeeping (hook, logged before the increment): the step count only counts completed actions
@@ -211,7 +211,8 @@ RepeatMore ==
 
 SmEnd ==
   /\ Is("sm.end") /\ Adv
-  /\ viol' = viol \cup If(Ev.ret /\ sm.needInv, "invariant_missing_after_action")
+  /\ viol' = viol \cup If(Ev.ret /\ sm.needInv /\ sm.steps > 0, "invariant_missing_after_action")
+                  \cup If(Ev.ret /\ sm.needInv /\ sm.steps = 0, "invariant_not_first")
                   \cup If(Ev.ret /\ sm.failed, "continued_after_falsification")
   /\ sm' = [sm EXCEPT !.active = FALSE]
   /\ UNCHANGED <<scen, fr, kind, seen>>
